@@ -53,7 +53,164 @@ def fold(node, env=None):
                 raise NotConstant('dict unpack')
             out[fold(k, env)] = fold(v, env)
         return out
+    if isinstance(node, ast.Subscript):
+        base = fold(node.value, env)
+        try:
+            if isinstance(node.slice, ast.Slice):
+                sl = node.slice
+                return base[slice(fold(sl.lower, env) if sl.lower else None, fold(sl.upper, env) if sl.upper else None,
+                                  fold(sl.step, env) if sl.step else None)]
+            return base[fold(node.slice, env)]
+        except NotConstant:
+            raise
+        except Exception as e:
+            raise NotConstant(str(e))
+    if isinstance(node, ast.Compare):
+        left = fold(node.left, env)
+        for op, comp in zip(node.ops, node.comparators):
+            right = fold(comp, env)
+            f = _CMPOPS.get(type(op))
+            if f is None:
+                raise NotConstant('compare')
+            try:
+                if not f(left, right):
+                    return False
+            except Exception as e:
+                raise NotConstant(str(e))
+            left = right
+        return True
+    if isinstance(node, ast.BoolOp):
+        val = None
+        for v in node.values:
+            val = fold(v, env)
+            if isinstance(node.op, ast.And) and not val:
+                return val
+            if isinstance(node.op, ast.Or) and val:
+                return val
+        return val
+    if isinstance(node, ast.IfExp):
+        return fold(node.body if fold(node.test, env) else node.orelse, env)
+    if isinstance(node, (ast.ListComp, ast.SetComp, ast.DictComp, ast.GeneratorExp)):
+        rows = [dict(env)]
+        for g in node.generators:
+            nxt = []
+            for e2 in rows:
+                it = fold(g.iter, e2)
+                try:
+                    it = list(it.items()) if False else list(it)
+                except TypeError:
+                    raise NotConstant('iter')
+                if len(it) * max(1, len(rows)) > 8192:
+                    raise NotConstant('comprehension too large')
+                for elem in it:
+                    e3 = dict(e2)
+                    _bind(g.target, elem, e3)
+                    if all(fold(c, e3) for c in g.ifs):
+                        nxt.append(e3)
+            rows = nxt
+        if isinstance(node, ast.DictComp):
+            return {fold(node.key, e2): fold(node.value, e2) for e2 in rows}
+        vals = [fold(node.elt, e2) for e2 in rows]
+        return set(vals) if isinstance(node, ast.SetComp) else vals
+    if isinstance(node, ast.Call) and not any(k.arg is None for k in node.keywords):
+        name = dotted(node.func)
+        args = None
+        if name in _PURE_CALLS and not node.keywords:
+            args = [fold(a, env) for a in node.args]
+            try:
+                return _PURE_CALLS[name](*args)
+            except NotConstant:
+                raise
+            except Exception as e:
+                raise NotConstant(str(e))
+        if isinstance(node.func, ast.Attribute) and node.func.attr in _PURE_METHODS and not node.keywords:
+            recv = fold(node.func.value, env)
+            ok_types = _PURE_METHODS[node.func.attr]
+            if isinstance(recv, ok_types):
+                args = [fold(a, env) for a in node.args]
+                try:
+                    r = getattr(recv, node.func.attr)(*args)
+                except Exception as e:
+                    raise NotConstant(str(e))
+                if node.func.attr in ('items', 'keys', 'values'):
+                    r = list(r)
+                return r
     raise NotConstant(type(node).__name__)
+
+
+def _bind(target, value, env):
+    if isinstance(target, ast.Name):
+        env[target.id] = value
+    elif isinstance(target, (ast.Tuple, ast.List)):
+        try:
+            vals = list(value)
+        except TypeError:
+            raise NotConstant('unpack')
+        if len(vals) != len(target.elts) or any(isinstance(e, ast.Starred) for e in target.elts):
+            raise NotConstant('unpack')
+        for t, v in zip(target.elts, vals):
+            _bind(t, v, env)
+    else:
+        raise NotConstant('target')
+
+
+_STRUCT_STD = {'x': 1, 'c': 1, 'b': 1, 'B': 1, '?': 1, 'h': 2, 'H': 2, 'i': 4, 'I': 4, 'l': 4, 'L': 4, 'q': 8, 'Q': 8, 'e': 2, 'f': 4, 'd': 8}
+
+
+def _calcsize(fmt):
+    """struct.calcsize for formats with an explicit standard-size byte order (no native alignment involved)."""
+    if not isinstance(fmt, str) or not fmt or fmt[0] not in '<>=!':
+        raise NotConstant('native struct format')
+    total, n = 0, ''
+    for ch in fmt[1:]:
+        if ch.isdigit():
+            n += ch
+            continue
+        if ch.isspace():
+            continue
+        cnt = int(n) if n else 1
+        n = ''
+        if ch in 'sp':
+            total += cnt
+        elif ch in _STRUCT_STD:
+            total += cnt * _STRUCT_STD[ch]
+        else:
+            raise NotConstant('struct code ' + ch)
+    if n:
+        raise NotConstant('struct format')
+    return total
+
+
+def _range(*a):
+    r = range(*a)
+    if len(r) > 8192:
+        raise NotConstant('range too large')
+    return list(r)
+
+
+_PURE_CALLS = {'len': len, 'min': min, 'max': max, 'sum': sum, 'sorted': sorted, 'set': set, 'frozenset': frozenset, 'list': list,
+               'tuple': tuple, 'dict': dict, 'abs': abs, 'bool': bool, 'ord': ord, 'chr': chr, 'range': _range, 'struct.calcsize': _calcsize,
+               'reversed': lambda x: list(reversed(x)), 'enumerate': lambda x, start=0: list(enumerate(x, start)),
+               'zip': lambda *x: list(zip(*x)), 'int': lambda *a: _only(int(*a), a), 'str': lambda x: _only(str(x), (x,)),
+               'divmod': divmod, 'pow': lambda a, b: a ** b if isinstance(b, int) and 0 <= b <= 256 else _raise()}
+_PURE_METHODS = {'lower': (str,), 'upper': (str,), 'strip': (str,), 'lstrip': (str,), 'rstrip': (str,), 'split': (str,), 'join': (str,),
+                 'startswith': (str,), 'endswith': (str,), 'replace': (str,), 'items': (dict,), 'keys': (dict,), 'values': (dict,),
+                 'get': (dict,), 'union': (set, frozenset), 'intersection': (set, frozenset), 'difference': (set, frozenset),
+                 'copy': (dict, set, list), 'index': (list, tuple, str), 'count': (list, tuple, str), 'bit_length': (int,),
+                 'encode': (str,), 'decode': (bytes,)}
+_CMPOPS = {ast.Eq: lambda a, b: a == b, ast.NotEq: lambda a, b: a != b, ast.Lt: lambda a, b: a < b, ast.LtE: lambda a, b: a <= b,
+           ast.Gt: lambda a, b: a > b, ast.GtE: lambda a, b: a >= b, ast.In: lambda a, b: a in b, ast.NotIn: lambda a, b: a not in b,
+           ast.Is: lambda a, b: a is b, ast.IsNot: lambda a, b: a is not b}
+
+
+def _only(v, args):
+    if any(not isinstance(a, (int, str, bytes)) or isinstance(a, bool) and False for a in args):
+        raise NotConstant('conversion')
+    return v
+
+
+def _raise():
+    raise NotConstant('pow')
 
 
 def try_fold(node, env=None, default=None):
